@@ -246,6 +246,14 @@ func (torrent *Torrent) MetadataComplete() error {
 		}
 	}
 
+	pieces := length / int64(info.PieceLength)
+	if length%int64(info.PieceLength) != 0 {
+		pieces++
+	}
+	if pieces != int64(len(hashes)) {
+		return errors.New("wrong number of piece hashes")
+	}
+
 	chunks := (length + int64(config.ChunkSize) - 1) /
 		int64(config.ChunkSize)
 	if chunks != int64(uint32(chunks)) || chunks != int64(int(chunks)) {
